@@ -205,6 +205,18 @@ def run(ctx):
         viol(report, "C20-R4", B["add_cached"], "insert", "add_cached_resource does not insert (replace) the record in both the existing-node and new-node paths")
     else:
         report.nontriv("insert replaces")
+    # ... on every path: the function cannot return without having stored the record (no early return for TTL 0 etc.)
+    for nm in ("add_cached", "add_auth"):
+        fb = B[nm]
+        ins_blocks = set(bi for bi, t in mu.calls(fb, r"HashMap::<K, V, S, A>::insert$|radix_trie::.*::insert$"))
+        rets = [bi for bi, bl in enumerate(fb.blocks) if bl["term"]["t"] == "return" and not bl["cleanup"]]
+        free = mu.reachable_from(fb, 0, avoid=ins_blocks)
+        report.count()
+        if any(r in free for r in rets):
+            viol(report, "C20-R4", fb, "skip-insert", "%s can return without storing the record (a path from entry to return avoids every insert): "
+                 "a record received again keeps its old expiry" % fb.qname)
+        else:
+            report.nontriv("always inserts:" + nm)
     # registering a record as authoritative replaces whatever is stored for it (a cached copy learned earlier must not
     # survive the registration: authoritative records never expire and are what the responder answers with)
     insa = mu.calls(B["add_auth"], r"HashMap::<K, V, S, A>::insert$")
